@@ -63,9 +63,12 @@ PRED = {
     "value.is_iterable()": "iterable",
     # every map is accepted by `Iterable` (a for loop iterates its entries), requests/C16-fix-5.diff
     "value.is_iterable() || matches!(value, KValue::Map(_))": "iterable",
+    # a generator function is a function that can be called, requests/C16-fix-6.diff
+    "value.is_callable() || value.is_generator()": "callable",
 }
 specials = []
 iterable_hint_accepts_maps = False
+callable_hint_accepts_generators = False
 arms_src = re.sub(r"^\s*//[^\n]*\n", "", arms_src, flags=re.M)
 pos = 0
 while True:
@@ -75,6 +78,8 @@ while True:
     name, rhs = am.group(1), am.group(2).strip()
     if "KValue::Map(_)" in rhs:
         iterable_hint_accepts_maps = True
+    if "is_generator()" in rhs:
+        callable_hint_accepts_generators = True
     if rhs not in PRED:
         die(f"compare_value_type: special name {name!r} selects an unknown predicate {rhs!r}")
     specials.append((name, PRED[rhs]))
@@ -305,6 +310,9 @@ out.append("def iterableKind : Kind → Bool")
 for c in sorted(set(VARIANT_KIND[v] for v in itb_true) | {"map"}):
     out.append(f"  | .{c} => true")
 out.append("  | _ => false")
+out.append("")
+out.append("/-- does the hint `Callable` accept generator functions, which `is_callable` excludes? -/")
+out.append(f"def callableHintAcceptsGenerators : Bool := {'true' if callable_hint_accepts_generators else 'false'}")
 out.append("")
 out.append("/-- does the hint `Iterable` accept every map, whatever `is_iterable` says? -/")
 out.append(f"def iterableHintAcceptsMaps : Bool := {'true' if iterable_hint_accepts_maps else 'false'}")
